@@ -704,7 +704,9 @@ def r11_variants_delegate_once(a, tier):
     )
     ap = a.p.func('tatsu.parproc.pmap.active_pmap')
     nested = {f.name: f for f in a.p.functions.values() if f.parent is ap}
-    returned = sorted({n.value.id for n in walk_no_defs(ap.node) if isinstance(n, ast.Return) and isinstance(n.value, ast.Name) and n.value.id in nested})
+    # whatever form the selection takes (`if ...: return a` / `return a if ... else b` / a table): the nested functions named in a returned expression
+    returned = sorted({x.id for n in walk_no_defs(ap.node) if isinstance(n, ast.Return) and n.value is not None
+                       for x in ast.walk(n.value) if isinstance(x, ast.Name) and x.id in nested})
     if not returned:
         raise AnalysisError('C18.R11: active_pmap returns none of its nested variants by name any more')
     todo, seen = list(returned), set()
